@@ -67,7 +67,7 @@ class SigmaValidator:
                     vs.remove(vn)
                 except KeyError:
                     raise SigmaConfigurationError(
-                        f"Attempting to remove not existing validator '{ vn }' from validator set { vs }."
+                        f"Attempting to remove not existing validator '{ vn }' from validator set { sorted(vs) }."
                     )
             else:  # handle as validator name and try to add it to set.
                 vs.add(v)
